@@ -140,6 +140,8 @@ func (v VD) Go() any {
 		return rowKindNamed(v.S).build(v.M)
 	case "eroot":
 		return buildERoot(v)
+	case "page":
+		return buildPage(v)
 	case "mapaa", "mapas", "mapns":
 		return buildAnyMap(v)
 	case "mapis":
